@@ -178,6 +178,33 @@ func c10Lens(parts [][]byte, r *c10Result) {
 	}
 }
 
+
+// c10HasShortPart: some part that is a residue (of a modulus of nomBytes[i] bytes) has an encoding shorter than the modulus:
+// big.Int.Bytes() dropped leading zero bytes. nom 0 = not a residue.
+func c10HasShortPart(parts [][]byte, nom []int) bool {
+	for i, p := range parts {
+		if i < len(nom) && nom[i] > 0 && len(p) < nom[i] {
+			return true
+		}
+	}
+	return false
+}
+
+func c10Len(x *big.Int) int { return (x.BitLen() + 7) / 8 }
+
+// c10Grind repeats an honest prover until short() says that the proof has a part with leading zero bytes dropped (the witness
+// class "lz"): at most max tries. The last proof is used in any case.
+func c10Grind(on bool, max int, prove func() bool, short func() bool) (tries int) {
+	for tries = 1; ; tries++ {
+		if !prove() {
+			return tries
+		}
+		if !on || tries >= max || short() {
+			return tries
+		}
+	}
+}
+
 // c10Run concretises one row at real size.
 func c10Run(sc c10Scenario, keys []eckg.LocalPartySaveData) (res c10Result) {
 	t0 := time.Now()
@@ -185,6 +212,7 @@ func c10Run(sc c10Scenario, keys []eckg.LocalPartySaveData) (res c10Result) {
 	res.Info = map[string]any{}
 	defer func() { res.Seconds = time.Since(t0).Seconds() }()
 	row := sc.Row
+	grind := row.WClass == "lz" // this class also asks for a PROOF one of whose parts has leading zero bytes
 	rng := rand.New(rand.NewSource(sc.Seed))
 	lib := pump.NewDRBG(sc.Seed ^ 0xc10)
 	sess := c10SessBytes(row.Sess)
@@ -229,6 +257,7 @@ func c10Run(sc c10Scenario, keys []eckg.LocalPartySaveData) (res c10Result) {
 	case "sch", "schv":
 		cv := c10Curve(row.Curve)
 		q := cv.q()
+		fl := c10Len(cv.Ec.Params().P)
 		if row.Sys == "sch" {
 			x := c10Witness(row.WClass, q, rng)
 			var X *crypto.ECPoint
@@ -242,7 +271,12 @@ func c10Run(sc c10Scenario, keys []eckg.LocalPartySaveData) (res c10Result) {
 			}
 			var pf *schnorr.ZKProof
 			var err error
-			if pan := pcCall(func() { pf, err = schnorr.NewZKProof(sess, x, X, lib) }); pan != "" || err != nil || pf == nil {
+			var pan string
+			res.Info["prover_runs"] = c10Grind(grind, 3000, func() bool {
+				pan = pcCall(func() { pf, err = schnorr.NewZKProof(sess, x, X, lib) })
+				return pan == "" && err == nil && pf != nil
+			}, func() bool { return c10HasShortPart([][]byte{pf.Alpha.X().Bytes(), pf.Alpha.Y().Bytes(), pf.T.Bytes()}, []int{fl, fl, c10Len(q)}) })
+			if pan != "" || err != nil || pf == nil {
 				proverFail(err, pan)
 				return
 			}
@@ -308,7 +342,14 @@ func c10Run(sc c10Scenario, keys []eckg.LocalPartySaveData) (res c10Result) {
 		}
 		var pf *schnorr.ZKVProof
 		var err error
-		if pan := pcCall(func() { pf, err = schnorr.NewZKVProof(sess, V, R, s, l, lib) }); pan != "" || err != nil || pf == nil {
+		var pan string
+		res.Info["prover_runs"] = c10Grind(grind, 3000, func() bool {
+			pan = pcCall(func() { pf, err = schnorr.NewZKVProof(sess, V, R, s, l, lib) })
+			return pan == "" && err == nil && pf != nil
+		}, func() bool {
+			return c10HasShortPart([][]byte{pf.Alpha.X().Bytes(), pf.Alpha.Y().Bytes(), pf.T.Bytes(), pf.U.Bytes()}, []int{fl, fl, c10Len(q), c10Len(q)})
+		})
+		if pan != "" || err != nil || pf == nil {
 			proverFail(err, pan)
 			return
 		}
@@ -475,7 +516,13 @@ func c10Run(sc c10Scenario, keys []eckg.LocalPartySaveData) (res c10Result) {
 		sk := A.PaillierSK
 		var pf *facproof.ProofFac
 		var err error
-		if pan := pcCall(func() { pf, err = facproof.NewProof(sess, cv.Ec, sk.N, B.NTildei, B.H1i, B.H2i, sk.P, sk.Q, lib) }); pan != "" || err != nil || pf == nil {
+		var pan string
+		nc := c10Len(B.NTildei)
+		res.Info["prover_runs"] = c10Grind(row.Sess == "long", 600, func() bool {
+			pan = pcCall(func() { pf, err = facproof.NewProof(sess, cv.Ec, sk.N, B.NTildei, B.H1i, B.H2i, sk.P, sk.Q, lib) })
+			return pan == "" && err == nil && pf != nil
+		}, func() bool { bz := pf.Bytes(); return c10HasShortPart(bz[:], []int{nc, nc, nc, nc, nc}) })
+		if pan != "" || err != nil || pf == nil {
 			proverFail(err, pan)
 			return
 		}
@@ -505,12 +552,18 @@ func c10Run(sc c10Scenario, keys []eckg.LocalPartySaveData) (res c10Result) {
 		var c, r *big.Int
 		var pf *mta.RangeProofAlice
 		var err error
-		if pan := pcCall(func() {
-			c, r, err = pk.EncryptAndReturnRandomness(lib, m)
-			if err == nil {
-				pf, err = mta.ProveRangeAlice(cv.Ec, pk, c, B.NTildei, B.H1i, B.H2i, m, r, lib)
-			}
-		}); pan != "" || err != nil || pf == nil {
+		var pan string
+		nt, nn := c10Len(B.NTildei), c10Len(pk.N)
+		res.Info["prover_runs"] = c10Grind(grind, 600, func() bool {
+			pan = pcCall(func() {
+				c, r, err = pk.EncryptAndReturnRandomness(lib, m)
+				if err == nil {
+					pf, err = mta.ProveRangeAlice(cv.Ec, pk, c, B.NTildei, B.H1i, B.H2i, m, r, lib)
+				}
+			})
+			return pan == "" && err == nil && pf != nil
+		}, func() bool { bz := pf.Bytes(); return c10HasShortPart(bz[:], []int{nt, 2 * nn, nt, nn}) })
+		if pan != "" || err != nil || pf == nil {
 			proverFail(err, pan)
 			return
 		}
@@ -579,9 +632,15 @@ func c10Run(sc c10Scenario, keys []eckg.LocalPartySaveData) (res c10Result) {
 		t := pcNewTr(row.Sys)
 		t.Cv, t.Sess, t.N, t.NT, t.H1, t.H2 = cv, sess, pk.N, NT, h1, h2
 		t.I["c1"], t.I["c2"] = c1, c2
+		bobNom := []int{c10Len(NT), c10Len(NT), c10Len(NT), 2 * c10Len(pk.N), c10Len(NT), c10Len(pk.N)}
 		if row.Sys == "bob" {
 			var pf *mta.ProofBob
-			if pan := pcCall(func() { pf, err = mta.ProveBob(sess, cv.Ec, pk, NT, h1, h2, c1, c2, x, y, r, lib) }); pan != "" || err != nil || pf == nil {
+			var pan string
+			res.Info["prover_runs"] = c10Grind(grind, 400, func() bool {
+				pan = pcCall(func() { pf, err = mta.ProveBob(sess, cv.Ec, pk, NT, h1, h2, c1, c2, x, y, r, lib) })
+				return pan == "" && err == nil && pf != nil
+			}, func() bool { bz := pf.Bytes(); return c10HasShortPart(bz[:], bobNom) })
+			if pan != "" || err != nil || pf == nil {
 				proverFail(err, pan)
 				return
 			}
@@ -606,8 +665,13 @@ func c10Run(sc c10Scenario, keys []eckg.LocalPartySaveData) (res c10Result) {
 			return
 		}
 		var pw *mta.ProofBobWC
-		if pan := pcCall(func() { pw, err = mta.ProveBobWC(sess, cv.Ec, pk, NT, h1, h2, c1, c2, x, y, r, X, lib) }); pan != "" || err != nil || pw == nil {
-			proverFail(err, pan)
+		var pan2 string
+		res.Info["prover_runs"] = c10Grind(grind, 400, func() bool {
+			pan2 = pcCall(func() { pw, err = mta.ProveBobWC(sess, cv.Ec, pk, NT, h1, h2, c1, c2, x, y, r, X, lib) })
+			return pan2 == "" && err == nil && pw != nil
+		}, func() bool { bz := pw.Bytes(); return c10HasShortPart(bz[:], append(append([]int{}, bobNom...), 0, 0, 0, 0, 32, 32)) })
+		if pan2 != "" || err != nil || pw == nil {
+			proverFail(err, pan2)
 			return
 		}
 		if !judge("in-memory", func() bool { return pw.Verify(sess, cv.Ec, pk, NT, h1, h2, c1, c2, X) }) {
